@@ -370,14 +370,14 @@ func vc_cellLength_ensures_len(data []byte, pos int, typ byte, metadata uint16, 
 
 // k-th byte of the value after undoing the sign-bit flip and, for negatives, the byte inversion
 func specDecByte(data []byte, p0 int, neg bool, k int) byte {
-	b := data[p0+k]
+	var m byte
 	if k == 0 {
-		b ^= 0x80
+		m = 0x80
 	}
 	if neg {
-		b ^= 0xff
+		m ^= 0xff
 	}
-	return b
+	return data[p0+k] ^ m
 }
 
 // big-endian value of n (0..4) normalised bytes starting at byte index at
@@ -461,7 +461,30 @@ func specDecimalText(data []byte, pos int, metadata uint16) vspec.Text {
 	if fx == 0 {
 		return vspec.Cat(specSign(neg), ip, vspec.Lit("."), full)
 	}
-	return vspec.Cat(specSign(neg), ip, vspec.Lit("."), full, vspec.Num(fx, specDecBE(data, pos, neg, ib+4*frac0, specDig2bytes[fx])))
+	return vspec.Cat(specSign(neg), ip, vspec.Lit("."), full, specDecPartial(fx, specDecBE(data, pos, neg, ib+4*frac0, specDig2bytes[fx])))
+}
+
+// the fx (1..8) leftover fraction digits, zero-padded to exactly fx digits
+func specDecPartial(fx int, v uint64) vspec.Text {
+	switch fx {
+	case 1:
+		return vspec.Num(1, v)
+	case 2:
+		return vspec.Num(2, v)
+	case 3:
+		return vspec.Num(3, v)
+	case 4:
+		return vspec.Num(4, v)
+	case 5:
+		return vspec.Num(5, v)
+	case 6:
+		return vspec.Num(6, v)
+	case 7:
+		return vspec.Num(7, v)
+	case 8:
+		return vspec.Num(8, v)
+	}
+	return vspec.Empty()
 }
 
 // loop 1: `for i := range d { d[i] ^= 0xff }`
